@@ -601,6 +601,10 @@ def run_check(chk: Check, tier="quick", seed=0, replay=None):
             ev["coverage"].update(chk.extra_evidence(cases, obs, model_outs))
         except Exception as e:
             ev["coverage"]["extra_evidence_error"] = str(e)
+    cov = ev["coverage"]
+    if "exhaustive" in cov and not isinstance(cov["exhaustive"], bool):  # schema: boolean
+        cov["exhaustive_detail"] = cov["exhaustive"]
+        cov["exhaustive"] = False
     if not replay:
         write_json(os.path.join(VERIF, "evidence", f"{prop}.json"), ev)
     for l in lines:
